@@ -396,6 +396,21 @@ func VerifH14() {
 	}
 	input = append(input, vMsgBytes('d', stream[prev:])...)
 	input = append(input, vMsgBytes('c', nil)...)
+	// CUT=1: the connection may be lost inside the body of a CopyData message
+	// that carries whole tuples (its header arrived, CUT bytes of its body are
+	// missing): an error, and never a row made of bytes that were not sent
+	if cutN := vParam("CUT", 0); cutN > 0 && len(cuts) == 0 && len(rows) >= 1 && clean && nondetBool() {
+		whole := vMsgBytes('d', stream)
+		input = whole[:len(whole)-cutN]
+		w := vNewWorld(input, 64)
+		cr := NewCopyReader(w.rd, w.wr, cols)
+		br, err := NewBinaryColumnReader(w.ctx, cr)
+		vAssert("column-reader-ok", err == nil)
+		row, rerr := br.Read(w.ctx)
+		vAssert("a-copydata-message-cut-by-the-end-of-the-connection-yields-no-row", rerr != nil && rerr != io.EOF && row == nil)
+		vReach("connection-lost-inside-a-copydata-body")
+		return
+	}
 
 	w := vNewWorld(input, 64)
 	cr := NewCopyReader(w.rd, w.wr, cols)
@@ -585,6 +600,67 @@ func VerifH14t() {
 	b2, isBytes := got[1].([]byte)
 	vAssert("second-connection-value-decoded-by-its-own-codec", isBytes && vEqBytes(b2, val))
 	vReach("same-object-id-registered-differently-on-two-connections")
+}
+
+// ---------------------------------------------------------------------------
+// H13t — a handler may copy in more than once (C13): one statement starts
+// COPY-in, reads to the end of the stream (CopyDone), starts COPY-in AGAIN on
+// the same writer (same or another format — the solver's choice) and reads
+// that stream too. Each start is announced by its own CopyInResponse, each
+// stream's payloads arrive in order, the cycle ends with one CommandComplete
+// and one ReadyForQuery.
+// ---------------------------------------------------------------------------
+func VerifH13t() {
+	f1, f2 := FormatCode(vChoose(2)), FormatCode(vChoose(2))
+	p1, p2 := nondetBytes(1), nondetBytes(1)
+	var got [][]byte
+	starts := 0
+	stmt := func(ctx context.Context, dw DataWriter, params []Parameter) error {
+		for _, f := range []FormatCode{f1, f2} {
+			cr, err := dw.CopyIn(f)
+			if err != nil {
+				return err
+			}
+			starts++
+			for k := 0; k < 3; k++ {
+				err := cr.Read()
+				if err == io.EOF {
+					break
+				}
+				if err != nil {
+					return err
+				}
+				got = append(got, append([]byte{}, cr.Msg...))
+			}
+		}
+		return dw.Complete("COPY 2")
+	}
+	parse := func(ctx context.Context, query string) (PreparedStatements, error) {
+		return Prepared(NewStatement(stmt, WithColumns(vTextColumns(1)))), nil
+	}
+	input := vCat(vMsgBytes('Q', vCStr([]byte("c"))),
+		vMsgBytes('d', p1), vMsgBytes('c', nil),
+		vMsgBytes('d', p2), vMsgBytes('c', nil))
+	srv, err := NewServer(parse, MessageBufferSize(64))
+	vAssert("newserver-ok", err == nil)
+	w := &vWorld{srv: srv}
+	w.conn = vNewConn(input)
+	w.conn.silent = "second-copy-in-is-announced-before-its-data-is-awaited"
+	w.ses, w.rd, w.wr = vSession(srv, w.conn)
+	w.ctx = vCtx(srv)
+	out, stepErr := w.step()
+	vAssert("connection-stays-up", stepErr == nil)
+	vAssert("wire-wellformed", vWireOK(w.conn.out))
+	vAssert("both-copies-started", starts == 2)
+	vAssert("each-copy-in-announced-by-its-own-CopyInResponse", out == "TGGCZ")
+	msgs, _ := vFrames(w.conn.out)
+	if len(msgs) == 5 {
+		vAssert("copy-in-responses-announce-the-requested-formats", msgs[1].body[0] == byte(f1) && msgs[2].body[0] == byte(f2))
+	}
+	vAssert("payloads-of-both-streams-in-order", len(got) == 2 && vEqBytes(got[0], p1) && vEqBytes(got[1], p2))
+	if f1 == f2 {
+		vReach("copy-in-twice-with-the-same-format")
+	}
 }
 
 // ---------------------------------------------------------------------------
